@@ -323,6 +323,11 @@ func c19Fixture(e *engine.Engine) error {
 	vecs := [][]float32{{0.1, 0.2, 0.3}, {0.9, 0.1, 0.0}, {0.0, 1.0, 0.5}, {0.4, 0.4, 0.4}}
 	for i, v := range vecs {
 		meta := map[string]any{"type": "doc", "n": float64(i), "content": fmt.Sprintf("fixture text number %d about vectors", i)}
+		if i == 3 { // one fixture node carries nested JSON metadata (list of objects, list of lists, object of objects)
+			meta["entities"] = []any{map[string]any{"name": "alice", "refs": []any{map[string]any{"id": 1.0}}}, map[string]any{}}
+			meta["grid"] = []any{[]any{1.0, 2.0}, []any{3.0}, []any{}}
+			meta["nested"] = map[string]any{"a": map[string]any{"b": []any{true, nil}}}
+		}
 		if err := e.VAdd("fx", fmt.Sprintf("v%d", i), v, meta); err != nil {
 			return err
 		}
@@ -337,6 +342,30 @@ func c19Fixture(e *engine.Engine) error {
 		return err
 	}
 	return e.KVSet("k1", []byte("one"))
+}
+
+// reopen closes engine and server and opens both again on the same data
+// directory (a restart in the middle of a request sequence).
+func (env *c19Env) reopen() error {
+	env.waitTasks(15 * time.Second)
+	env.waitEngineIdle(15 * time.Second)
+	if note := env.closeEngineOnly(); note != "" {
+		return fmt.Errorf("%s", note)
+	}
+	eng, err := engine.Open(env.opts)
+	if err != nil {
+		return fmt.Errorf("engine.Open after restart: %v", err)
+	}
+	env.eng = eng
+	env.wgUsable = c19WGCounter(eng) == 1
+	srv, err := NewServer(eng, ":0", "", "", env.dataDir, "", embeddings.NoopEmbedder{})
+	if err != nil {
+		return fmt.Errorf("NewServer after restart: %v", err)
+	}
+	env.srv = srv
+	env.resolver = http.NewServeMux()
+	srv.registerHTTPHandlers(env.resolver)
+	return nil
 }
 
 // close shuts everything down; returns a note if Close misbehaved.
